@@ -328,6 +328,9 @@ def run(ctx):
     # every batch and every solo run starts from freshly executed repository modules: state that leaks from one game
     # into the next inside a batch then shows up as a difference from the solo run
     jobs = [dict(op="run_games", games=enc({n: g for n, g, _ in dct}), fresh_modules=True) for dct in dicts]
+    for i, j in enumerate(jobs):
+        if i % 3 == 1:          # every third batch: the descriptions already carry a (stale) 'prune_states' key
+            j["stale"] = [bool((i // 3 + k) % 2) for k in range(len(dicts[i]))]
     sk = list(solo_keys)
     jobs += [dict(op="run_games", games=enc({solo_keys[k][0]: solo_keys[k][1]}), fresh_modules=True) for k in sk]
     bk = list(base_keys)
@@ -341,9 +344,12 @@ def run(ctx):
     for i, k in enumerate(bk):
         base[k] = {True: res[nd + len(sk) + 2 * i], False: res[nd + len(sk) + 2 * i + 1]}
     terms, meta = [], []
-    for dct, r in zip(dicts, res[:nd]):
+    for i, (dct, r) in enumerate(zip(dicts, res[:nd])):
         ctx.evaluations += 1
         inp = dict(games=enc([[n, g] for n, g, _ in dct]))
+        if jobs[i].get("stale"):
+            inp["stale"] = jobs[i]["stale"]
+            ctx.count("batch whose descriptions carry a stale prune_states key")
         tags = [t.split(":")[0] for _, _, t in dct]
         ctx.count("games=%d" % len(dct))
         for t in dct:
@@ -389,7 +395,7 @@ def replay(ctx, data):
         print("no input recorded in", data.get("kind"))
         return 1
     games = [(n, g) for n, g in dec(v["games"])]
-    jobs = [dict(op="run_games", games=enc(dict(games)))]
+    jobs = [dict(op="run_games", games=enc(dict(games)), stale=v.get("stale"))]
     jobs += [dict(op="run_games", games=enc({n: g})) for n, g in games]
     for n, g in games:
         jobs += [dict(op="solve", game=enc(g), prune=True), dict(op="solve", game=enc(g), prune=False)]
